@@ -22,7 +22,8 @@ TCfg == /\ IsEvent("Cfg") /\ phase = "idle" /\ phase' = "run"
 
 TAdv == /\ IsEvent("Adv") /\ phase = "run" /\ Advance(Ev.t) /\ UNCHANGED phase
 
-TArr == /\ IsEvent("Arr") /\ phase = "run" /\ Ev.t = now /\ Ev.q \in Queues
+\* cb0 = whether the packet was sent with a drop callback: no hop may strip it
+TArr == /\ IsEvent("Arr") /\ phase = "run" /\ Ev.t = now /\ Ev.q \in Queues /\ Ev.cb = Ev.cb0
         /\ Arrive(Ev.q, [id |-> Ev.id, size |-> Ev.size, kind |-> Ev.kind, cb |-> Ev.cb, ser |-> Ev.ser])
         /\ UNCHANGED phase
 
@@ -43,9 +44,10 @@ TNext == TCfg \/ TAdv \/ TArr \/ TDropCb \/ TDep \/ TEnd
 TSpec == TInit /\ [][TNext]_tvars
 
 \* remembers the deepest state reached (the trace is linear, -workers 1)
-RecordProgress == TLCSet(1, [l |-> l, pend |-> (pend # NoPkt)])
+RecordProgress == TLCSet(1, [l |-> l, pend |-> (pend # NoPkt),
+                              held |-> [q \in Queues |-> [i \in 1..Len(buf[q]) |-> buf[q][i].p.id]]])
 TraceAccepted == LET d == TLCGet("stats").diameter - 1 IN
-                 /\ PrintT(<<"MATCHED", d, Len(TraceLog), TLCGet(1)>>)
+                 /\ PrintT(<<"MATCHED", d, Len(TraceLog), ToJson(TLCGet(1))>>)
                  /\ d = Len(TraceLog)
 TQueues == {"q1", "q2", "q3"}
 =============================================================================
